@@ -763,6 +763,15 @@ impl Group {
         // ---- aftermath: let blocked user code go on, resume reading ----
         rec.inline_gate.open();
         rec.hold.open();
+        // the writer is jammed (the client is not reading) and the token was cancelled: the disconnect
+        // callbacks must run when the reader's block is left, not after the writer has been awaited
+        let mut ended = false;
+        if phase == "queued" && scen.cause == "cancel" {
+            ended = wait_evt(ev_rx, |e| matches!(e, Evt::Ended)).await;
+            if !ended {
+                res.problems.push(("lifecycle.disconnect.after_writer_drain".into(), format!("embedder cancelled while the writer is jammed by a peer that does not read: the disconnect callbacks did not run within {:?} (they wait for the writer)", WD)));
+            }
+        }
         if let Some(w) = ws.as_mut() {
             if let Err(e) = read_frames(w, &mut res.wire, |_| false).await {
                 res.notes.push(format!("client-eof-{e}"));
@@ -770,7 +779,7 @@ impl Group {
         }
         drop(ws);
         // ---- the end: the last disconnect callback has been invoked ----
-        if !wait_evt(ev_rx, |e| matches!(e, Evt::Ended)).await {
+        if !ended && !wait_evt(ev_rx, |e| matches!(e, Evt::Ended)).await {
             res.problems.push(("lifecycle.disconnect.missing".into(), format!("last disconnect callback not invoked within {:?} after the connection ended ({} / {})", WD, scen.phase, scen.cause)));
         }
         if phase == "parked" {
